@@ -18,12 +18,12 @@ PASS_MODES = ["default", "simple", "unroll", "heutopo", "mamba"]
 def plan(tier, seed):
   q = tier == "quick"
   return [{"hashseed": (seed * 29 + i) % 1013, "heap_pad": (i * 613 + seed * 71) % 7000, "noaslr": i % 2 == 1,
-           "designs": 40 if q else 400} for i in range(16)]
+           "designs": 40 if q else 400, "greenlet": 8 if q else 120} for i in range(16)]
 
 
 def thresholds(tier):
   t = {"designs": 150, "ordered_pairs_checked": 3000, "discriminating_stale_read_comparisons": 1000, "passes_checked": 5000,
-       "designs_with_pairs": 100, "rejections_checked": 16}
+       "designs_with_pairs": 100, "rejections_checked": 16, "greenlet_orderings_checked": 2000, "greenlet_designs": 60}
   if tier == "thorough":
     t = {k: v * 15 for k, v in t.items()}
   return t
@@ -32,7 +32,7 @@ def thresholds(tier):
 def knobs_for(rng):
   return {"depth": rng.choice([0, 1, 1, 2]), "max_children": rng.choice([1, 2, 3]), "p_ff": rng.choice([0.1, 0.3]),
           "p_split": rng.choice([0.4, 0.7]), "p_struct": 0.35, "max_sigs": rng.choice([3, 5]), "expr_depth": 2,
-          "p_connect": rng.choice([0.2, 0.45])}
+          "p_connect": rng.choice([0.2, 0.45]), "p_nested_field": rng.choice([0, 0.3]), "p_list_field": rng.choice([0, 0.3])}
 
 
 CYCLE_SRC = '''
@@ -69,7 +69,91 @@ def check_rejection(sh, rng):
     G.unload(mod)
 
 
+# ---------------------------------------------------------------------------
+# FL / greenlet stream: blocks that call @blocking methods are wrapped into greenlets by WrapGreenletPass; the ordering
+# constraints (through signals, overlapping slices, explicit U<U) must survive the wrapping for 0, 1 or 2 wrapped endpoints
+# ---------------------------------------------------------------------------
+
+def gen_greenlet_design(rng):
+  npairs = rng.randrange(2, 7)
+  L = ["from pymtl3 import *", "LOG = []", "class Chan(Component):", "  @blocking", "  def get(s):", "    s.count += 1", "    return s.base + s.count",
+       "  def construct(s, base):", "    s.base = base; s.count = 0", ""]
+  req = []        # (pair idx, first block, second block, kind)
+  L += ["class GTop(Component):", "  def construct(s):"]
+  for i in range(npairs):
+    nblk = rng.randrange(2, 5)              # chain of blocks b0 -> b1 -> ... through signals
+    wrap = [rng.random() < 0.7 for _ in range(nblk)]
+    L.append(f"    s.ch{i} = [Chan({10 * i} + k) for k in range({nblk})]")
+    for k in range(nblk):
+      L.append(f"    s.w{i}_{k} = Wire(Bits16)")
+    for k in range(nblk):
+      L.append("    @update_once")
+      L.append(f"    def p{i}_b{k}():")
+      L.append(f"      LOG.append(({i}, {k}))")
+      if wrap[k]:
+        L.append(f"      x = s.ch{i}[{k}].get()")
+      else:
+        L.append(f"      x = {k + 1}")
+      if k == 0:
+        L.append(f"      s.w{i}_0 @= x")
+      else:
+        how = rng.randrange(3)
+        if how == 0:   L.append(f"      s.w{i}_{k} @= s.w{i}_{k - 1} + x")
+        elif how == 1: L.append(f"      s.w{i}_{k}[0:8] @= s.w{i}_{k - 1}[4:12]"); L.append(f"      s.w{i}_{k}[8:16] @= 0")
+        else:          L.append(f"      s.w{i}_{k} @= zext(s.w{i}_{k - 1}[8:16], 16) + x")
+        req.append((i, k - 1, k, "data"))
+    # a pair ordered only by an explicit constraint
+    ea, eb = rng.random() < 0.7, rng.random() < 0.7
+    for nm, wr in (("ea", ea), ("eb", eb)):
+      L.append("    @update_once")
+      L.append(f"    def p{i}_{nm}():")
+      L.append(f"      LOG.append(({i}, '{nm}'))")
+      L.append(f"      x = s.ch{i}[0].get()" if wr else "      x = 0")
+    first, second = ("ea", "eb") if rng.random() < 0.5 else ("eb", "ea")
+    L.append(f"    s.add_constraints( U(p{i}_{first}) < U(p{i}_{second}) )")
+    req.append((i, first, second, "explicit"))
+  return "\n".join(L) + "\n", req, npairs
+
+
+def run_greenlet_case(sh, case):
+  rng = sh.rng("greenlet", case)
+  src, req, npairs = gen_greenlet_design(rng)
+  mod = G.load_source(src, "c02g")
+  try:
+    for mode in ("default", "simple", "mamba"):
+      top = mod.GTop()
+      try:
+        simmon.apply_mode(top, mode, rng)
+      except Exception as e:
+        sh.violation("scheduler-raised-on-legal-FL-design", {"mode": mode, "error": repr(e)[:300], "source": src}, case=("greenlet", case)); continue
+      for cyc in range(3):
+        del mod.LOG[:]
+        try:
+          top.sim_tick()
+        except Exception as e:
+          sh.violation("simulation-raised-on-legal-FL-design", {"mode": mode, "error": repr(e)[:300], "source": src}, case=("greenlet", case)); break
+        log = list(mod.LOG)
+        pos = {}
+        for idx, ent in enumerate(log):
+          if ent in pos:
+            sh.violation("block-executed-twice-in-a-tick", {"mode": mode, "block": ent, "source": src}, case=("greenlet", case))
+          pos[ent] = idx
+        for (i, a, b, kind) in req:
+          sh.count("greenlet_orderings_checked")
+          if (i, a) not in pos or (i, b) not in pos:
+            sh.violation("block-not-executed-in-a-tick", {"mode": mode, "pair": i, "blocks": [a, b], "source": src}, case=("greenlet", case)); break
+          if pos[(i, a)] > pos[(i, b)]:
+            sh.violation("ordering-lost-for-blocks-that-call-blocking-methods", {"mode": mode, "pair": i, "first": a, "second": b, "kind": kind,
+                         "cycle": cyc, "observed_order": [e for e in log if e[0] == i], "source": src}, case=("greenlet", case)); break
+      sh.count("greenlet_mode_runs")
+  finally:
+    G.unload(mod)
+  sh.count("greenlet_designs"); sh.fp("greenlet", src)
+
+
 def run_shard(sh):
+  for case in range(sh.params.get("greenlet", 6)):
+    run_greenlet_case(sh, case)
   for case in range(sh.params["designs"]):
     if sh.only is not None and str(case) != str(sh.only).strip('"'):
       continue
